@@ -1240,3 +1240,450 @@ def rule_W7(ctx):
         else:
             r.neg_control(f["name"], f["path"] not in bad_fns)
     return r
+
+
+# ---------------------------------------------------------------------------------------------------------------------
+# W8  intern-table coherence: SimpleGarnishData's `cache` maps the hash of a value to THE address that value was pushed at.
+#     The only function that may add to or change it is the one that pushes the hashed value in the same breath (it reads
+#     the data length, pushes the value, inserts (hash, that length)).  Any other writer - a copy of another object's entries,
+#     a remove, a retain - can leave an entry that names a cell holding a different value, and the next equal constant built
+#     into the object is handed that cell.
+_MAP_MUTATORS = {"insert", "entry", "extend", "remove", "clear", "retain", "drain", "get_mut", "values_mut", "iter_mut", "remove_entry", "try_insert", "shrink_to_fit", "append"}
+
+
+def intern_table_writes(f, owner_ty="SimpleGarnishData", field="cache"):
+    out = []
+    def is_tbl(e):
+        e = peel(e)
+        return e.get("k") == "Field" and e.get("name") == field and owner_ty in (e.get("base_ty") or "")
+    for n in walk(f["hir"]):
+        k = n.get("k")
+        if k == "MethodCall" and n.get("m") in _MAP_MUTATORS and is_tbl(n["recv"]):
+            out.append((n["m"], loc(n), n))
+        elif k in ("Assign", "AssignOp") and is_tbl(n["l"]):
+            out.append(("assign", loc(n), n))
+        elif k == "AddrOf" and n.get("mut") and is_tbl(n["e"]):
+            out.append(("&mut", loc(n), n))
+    return out
+
+
+def coherent_insert(f, n, owner_ty="SimpleGarnishData", field="cache"):
+    """`cache.insert(h, addr)`: addr is the data length read before a push of the hashed value in this same function"""
+    if n.get("k") != "MethodCall" or n.get("m") != "insert" or len(n.get("args", [])) < 2:
+        return False
+    bo = Body(f)
+    addr_ok = False
+    for o in bo.origins(n["args"][1]):
+        if isinstance(o, dict) and o.get("k") == "MethodCall" and o.get("m") == "len":
+            rv = peel(o["recv"])
+            if rv.get("k") == "Field" and rv.get("name") == "data":
+                addr_ok = True
+    pushes = [m for m in walk(f["hir"]) if m.get("k") == "MethodCall" and m.get("m") == "push" and peel(m["recv"]).get("k") == "Field" and peel(m["recv"]).get("name") == "data"]
+    return addr_ok and bool(pushes)
+
+
+def rule_W8(ctx):
+    F = ctx.F
+    r = RuleResult("W8", "intern-table coherence: SimpleGarnishData's hash -> address table is written only by the function that pushes the hashed value and records the address it was pushed at")
+    owners = 0
+    writers = 0
+    for f in sorted(F.fns.values(), key=lambda f: f["path"]):
+        if f["crate"] != "garnish_lang_simple_data":
+            continue
+        ws = intern_table_writes(f)
+        if not ws:
+            continue
+        writers += 1
+        bad = [(m, where) for m, where, n in ws if not coherent_insert(f, n)]
+        r.examine((f["path"],), True, {"fn": f["path"], "writes": [m for m, _w, _n in ws], "coherent": not bad})
+        if not bad:
+            owners += 1
+            continue
+        seen = set()
+        for m, where in bad:
+            if m in seen:
+                continue
+            seen.add(m)
+            r.finding(f["path"], "intern-table-written:" + m, where, "%s changes the constant table (`cache.%s` at %s) without pushing the hashed value and recording the address it was pushed at: an entry can then name a cell that holds a different value, and the next equal constant added to the object - a literal of a program built later - is handed that cell" % (last(f["path"]), m, where))
+    r.floor("functions that write the intern table coherently (push value, record its address)", owners, 1)
+    r.analysed["intern_table_writers"] = writers
+    for f in F.fns_in("gfixture::round3::w8::"):
+        if f["kind"] == "Closure" or not f.get("name", "").startswith(("ctl_", "ok_")):
+            continue
+        ws = intern_table_writes(f, owner_ty="Store", field="cache")
+        bad = [1 for m, where, n in ws if not coherent_insert(f, n)]
+        if f["name"].startswith("ctl_"):
+            r.control(f["name"], bool(bad))
+        else:
+            r.neg_control(f["name"], bool(ws) and not bad)
+    return r
+
+
+# ---------------------------------------------------------------------------------------------------------------------
+# D10  character accounting in the literal parsers: in a loop over the characters of a literal, every iteration does something
+#      with its character - appends to the output or to a pending token, changes the parser's state, fails or stops.  An
+#      iteration that simply moves on DROPS a character of the literal; the drops the language documents (raw line feeds and
+#      tabs that lay out a single-quoted text) are counted per function in allow/literal_drops.json.
+_ACC_METHODS = {"push", "push_str", "extend", "extend_from_slice", "insert", "append", "write_char", "write_str"}
+
+
+def _char_loops(f):
+    """(loop node, body of the Some(c) arm) for every `for c in <..>.chars()<..>` loop of f"""
+    out = []
+    for n in walk(f["hir"]):
+        if n.get("k") != "Match" or n.get("src") != "ForLoopDesugar":
+            continue
+        # the outer desugar match: scrutinee is IntoIterator::into_iter(<iterable>)
+        if not any(x.get("k") == "MethodCall" and x.get("m") in ("chars", "char_indices") for x in walk(n.get("scrut") or {})):
+            continue
+        for lp in walk(n):
+            if lp.get("k") == "Loop" and lp.get("src") == "ForLoop":
+                for m in walk(lp):
+                    if m.get("k") == "Match" and m.get("src") == "ForLoopDesugar" and m is not n:
+                        arms = [a for a in m["arms"] if any(b.get("k") == "Binding" for b in walk(a["pat"]))]
+                        if arms:
+                            out.append((lp, arms[0]["body"]))
+                        break
+                break
+    return out
+
+
+def _d10_eval(node, acted, drops, depth=0):
+    """abstract run of one loop iteration.  `acted` is the set of possible values of "did something with the character"
+    on entry; returns the set on fall-through.  Paths that end the iteration (continue) with False are recorded in drops."""
+    if not acted or node is None:
+        return acted if node is None else set()
+    if isinstance(node, list):
+        for x in node:
+            acted = _d10_eval(x, acted, drops, depth)
+            if not acted:
+                break
+        return acted
+    if not isinstance(node, dict):
+        return acted
+    k = node.get("k")
+    if k in ("Semi", "Expr", "DropTemps", "Cast", "AddrOf", "Field", "Unary"):
+        return _d10_eval(node.get("e"), acted, drops, depth)
+    if k == "Let":
+        return _d10_eval(node.get("init"), acted, drops, depth)
+    if k == "Block":
+        b = node.get("b") or {}
+        if isinstance(b, dict):
+            a = _d10_eval(b.get("stmts") or [], acted, drops, depth)
+            return _d10_eval(b.get("expr"), a, drops, depth) if b.get("expr") is not None else a
+        return _d10_eval(b, acted, drops, depth)
+    if k in ("Assign", "AssignOp"):
+        _d10_eval(node.get("r"), acted, drops, depth)
+        return {True}
+    if k == "MethodCall":
+        a = _d10_eval(node.get("recv"), acted, drops, depth)
+        a = _d10_eval(node.get("args"), a, drops, depth)
+        if node.get("m") in _ACC_METHODS:
+            return {True} if a else a
+        return a
+    if k == "Call":
+        a = _d10_eval(node.get("args"), acted, drops, depth)
+        return a
+    if k == "If":
+        a = _d10_eval(node.get("cond"), acted, drops, depth)
+        t = _d10_eval(node.get("then"), set(a), drops, depth)
+        e = _d10_eval(node.get("else"), set(a), drops, depth) if node.get("else") is not None else set(a)
+        return t | e
+    if k == "Match":
+        a = _d10_eval(node.get("scrut"), acted, drops, depth)
+        if node.get("src") == "TryDesugar":
+            # `Err(..)?` always returns: the continue arm of the desugaring is not a way through
+            sc = peel(node.get("scrut") or {})
+            if sc.get("k") == "Call" and sc.get("args"):
+                x = peel(sc["args"][0])
+                if x.get("k") == "Call" and (callee(x) or "").endswith("Result::Err"):
+                    return set()
+        out = set()
+        for arm in node.get("arms", []):
+            g = arm.get("guard")
+            a2 = _d10_eval(g, set(a), drops, depth) if g is not None else set(a)
+            out |= _d10_eval(arm.get("body"), a2, drops, depth)
+        return out
+    if k == "Continue":
+        if False in acted:
+            drops.append(node)
+        return set()
+    if k in ("Ret", "Break"):
+        return set()
+    if k == "Loop":
+        inner = []
+        a = _d10_eval(node.get("body"), set(acted), inner, depth + 1)
+        # an inner loop: its own continues stay inside it
+        return set(acted) | a | ({True} if any(x.get("k") in ("Assign", "AssignOp") or (x.get("k") == "MethodCall" and x.get("m") in _ACC_METHODS) for x in walk(node)) else set())
+    if k == "Closure":
+        return acted
+    if k == "Binary":
+        a = _d10_eval(node.get("l"), acted, drops, depth)
+        return _d10_eval(node.get("r"), a, drops, depth)
+    if k in ("Tup", "Array"):
+        return _d10_eval(node.get("es"), acted, drops, depth)
+    if k == "Struct":
+        return _d10_eval([fl.get("e") for fl in node.get("fields", []) if isinstance(fl, dict)], acted, drops, depth)
+    return acted
+
+
+def d10_drops(f):
+    """[(loop location, number of ways an iteration can end having done nothing with its character)]"""
+    out = []
+    for lp, body in _char_loops(f):
+        drops = []
+        fall = _d10_eval(body, {False}, drops)
+        n = len(drops) + (1 if False in fall else 0)
+        out.append((lp, n, fall, drops))
+    return out
+
+
+def rule_D10(ctx):
+    import json, os
+    from .facts import VERIF
+    F = ctx.F
+    r = RuleResult("D10", "character accounting in the literal parsers: every iteration over a literal's characters appends to the output, changes the parser state, fails or stops - a character is dropped only where the language documents it (allow/literal_drops.json)")
+    with open(os.path.join(VERIF, "allow", "literal_drops.json")) as fh:
+        al = json.load(fh)["drops"]
+    n_loops = 0
+    for f in sorted(F.fns.values(), key=lambda f: f["path"]):
+        if f["crate"] != "garnish_lang_simple_data" or "::data::parsing::" not in f["path"] or f["kind"] == "Closure":
+            continue
+        res = d10_drops(f)
+        total = sum(n for _lp, n, _f, _d in res)
+        if res:
+            n_loops += len(res)
+            allowed = al.get(f["name"], {}).get("max", 0)
+            r.examine((f["path"],), True, {"fn": f["name"], "character_loops": len(res), "dropping_ways": total, "documented": allowed})
+            if total > allowed:
+                lp = next(lp for lp, n, _f, _d in res if n)
+                r.finding(f["path"], "character-dropped:%s" % f["name"], loc(lp), "an iteration of the character loop of `%s` (%s) can end without appending to the output, changing the parser state, failing or stopping - in %d way(s), %d documented: a character of the literal is silently dropped and the literal denotes something else than it spells" % (f["name"], loc(lp), total, allowed))
+            elif allowed:
+                r.info.append("documented drop in %s: %s" % (f["name"], al[f["name"]]["why"]))
+    r.floor("character loops in the literal parsers", n_loops, 4)
+    for f in F.fns_in("gfixture::round3::d10::"):
+        if f["kind"] == "Closure" or not f.get("name", "").startswith(("ctl_", "ok_")):
+            continue
+        res = d10_drops(f)
+        total = sum(n for _lp, n, _f, _d in res)
+        if f["name"].startswith("ctl_"):
+            r.control(f["name"], total > 0)
+        else:
+            r.neg_control(f["name"], bool(res) and total == 0)
+    return r
+
+
+# ---------------------------------------------------------------------------------------------------------------------
+# A12  verdict pass-through: the data objects' resolve / apply / defer_op hand the host's answer to the runtime unchanged.
+#      The runtime pushes unit exactly when it is told "declined"; a data object that turns an accepted answer into
+#      "declined" (or the reverse) makes the identifier evaluate to unit on top of the host's value, or leaves nothing.
+_CALLBACKS = ("resolve", "apply", "defer_op")
+
+
+def _is_host_call(e, name):
+    e = peel(e)
+    if e.get("k") == "Call":
+        fe = peel(e.get("f") or {})
+        if fe.get("k") == "Field" and "fn(" in (fe.get("ty") or ""):
+            return True
+        d = callee(e) or ""
+        if last(d) == name and d != "":
+            return True
+    if e.get("k") == "MethodCall" and e.get("m") == name:
+        return True
+    return False
+
+
+def verdict_problems(f, name):
+    body = Body(f)
+    bad = []
+    n_calls = [0]
+
+    def ok(e, depth=0, seen=None):
+        seen = seen if seen is not None else set()
+        if e is None or depth > 30:
+            return
+        e = peel(e)
+        k = e.get("k")
+        if _is_host_call(e, name):
+            n_calls[0] += 1
+            return
+        if k == "Call":
+            d = callee(e) or ""
+            if d.endswith(("Result::Ok",)) and e.get("args"):
+                return ok(e["args"][0], depth + 1, seen)
+            if d.endswith("Result::Err"):
+                return
+        if k == "Lit":
+            if str(e["lit"].get("v")).lower() == "false":
+                return
+            bad.append(("constant-verdict", loc(e), "answers %s without consulting the host" % e["lit"].get("v")))
+            return
+        if k == "Path" and e.get("res") == "local":
+            if e["lid"] in seen:
+                return
+            seen.add(e["lid"])
+            ds = body.defs.get(e["lid"], [])
+            for d_ in ds:
+                if d_.get("k") in ("Param", "ClosureParam"):
+                    bad.append(("verdict-from-parameter", loc(e), "answers with a parameter"))
+                elif d_.get("k") == "Destructure":
+                    ok(d_["of"], depth + 1, seen)
+                else:
+                    ok(d_, depth + 1, seen)
+            return
+        if k == "Match":
+            if e.get("src") == "TryDesugar":
+                sc = peel(e.get("scrut") or {})
+                if sc.get("k") == "Call" and sc.get("args"):
+                    return ok(sc["args"][0], depth + 1, seen)
+            for arm in e["arms"]:
+                ok(arm["body"], depth + 1, seen)
+            return
+        if k == "If":
+            ok(e.get("then"), depth + 1, seen)
+            ok(e.get("else"), depth + 1, seen)
+            return
+        if k == "Block":
+            b = e.get("b") or {}
+            if isinstance(b, dict) and b.get("expr") is not None:
+                return ok(b["expr"], depth + 1, seen)
+            return
+        if k == "Ret":
+            return
+        bad.append(("verdict-altered:" + str(k) + (":" + str(e.get("op") or e.get("m")) if e.get("op") or e.get("m") else ""), loc(e), "the answer is computed (%s) instead of being the host's" % k))
+
+    ok(f["hir"])
+    for n in walk(f["hir"]):
+        if n.get("k") == "Ret" and n.get("e") is not None and not any("QuestionMark" in z for z in (n.get("exp") or [])):
+            ok(n["e"])
+    return bad, n_calls[0]
+
+
+def rule_A12(ctx):
+    F = ctx.F
+    r = RuleResult("A12", "verdict pass-through: the data objects' resolve / apply / defer_op return the host callback's answer unchanged (or false when no host is consulted)")
+    n = 0
+    for f in sorted(F.fns.values(), key=lambda f: f["path"]):
+        ti = f.get("trait_item") or ""
+        if f["crate"] != "garnish_lang_simple_data" or "GarnishData::" not in ti or last(ti) not in _CALLBACKS:
+            continue
+        n += 1
+        bad, calls = verdict_problems(f, last(ti))
+        r.examine((f["path"],), True, {"method": last(ti), "impl": (f.get("impl_self") or "").split("<")[0], "host_calls": calls, "problems": [b[0] for b in bad]})
+        seen = set()
+        for inst, where, msg in bad:
+            if inst in seen:
+                continue
+            seen.add(inst)
+            r.finding(f["path"], inst, where, "`%s` of %s: %s (%s): the runtime pushes unit exactly when it is told the host declined, so an accepted answer reported as declined leaves unit on top of the host's value - the identifier evaluates to unit and the host's value is consumed as some other operand" % (last(ti), last((f.get("impl_self") or "?").split("<")[0]), msg, where))
+        if not bad and calls == 0:
+            r.info.append("%s never consults a host (always declines)" % f["path"])
+    r.floor("host callback methods of the data implementations", n, 5)
+    for f in F.fns_in("gfixture::round3::a12::"):
+        if f["kind"] == "Closure" or not f.get("name", "").startswith(("ctl_", "ok_")):
+            continue
+        bad, _c = verdict_problems(f, "resolve")
+        if f["name"].startswith("ctl_"):
+            r.control(f["name"], bool(bad))
+        else:
+            r.neg_control(f["name"], not bad)
+    return r
+
+
+# ---------------------------------------------------------------------------------------------------------------------
+# G7  the two operands of a concatenation are treated alike.  A concatenation is a binary tree whose either side may again be
+#     a concatenation (`a <> (b <> c)` nests on the right, `a <> b <> c` on the left).  Code that takes one apart by hand
+#     (get_concatenation) and hands its two halves to different treatment - one side is checked for being a concatenation and
+#     walked on, the other is looked at as a single item - works for the chains the tests build and loses the other shape.
+def _concat_pairs(f):
+    """[(left binding, right binding, scope node)] for every destructuring of a get_concatenation result in f"""
+    out = []
+    body = Body(f)
+    def two_bindings(pat):
+        p = pat
+        while isinstance(p, dict) and p.get("k") in ("Ref", "Deref"):
+            p = p["pat"]
+        if isinstance(p, dict) and p.get("k") == "Tuple" and len(p.get("pats", [])) == 2:
+            bs = []
+            for q in p["pats"]:
+                while isinstance(q, dict) and q.get("k") in ("Ref", "Deref"):
+                    q = q["pat"]
+                bs.append(q if isinstance(q, dict) and q.get("k") == "Binding" else None)
+            return bs
+        return None
+    def from_concat(e):
+        return any(isinstance(o, dict) and o.get("k") == "MethodCall" and o.get("m") == "get_concatenation" for o in body.origins(e)) or any(
+            x.get("k") == "MethodCall" and x.get("m") == "get_concatenation" for x in walk(e or {}))
+    for n in walk(f["hir"]):
+        if n.get("k") == "Let" and n.get("init") is not None:
+            bs = two_bindings(n.get("pat"))
+            if bs and from_concat(n["init"]):
+                out.append((bs[0], bs[1], f["hir"]))
+        if n.get("k") == "MethodCall" and n.get("m") in ("and_then", "map", "map_or", "map_or_else") and from_concat(n["recv"]):
+            for a in n["args"]:
+                c = peel(a)
+                if c.get("k") == "Closure" and c.get("params"):
+                    bs = two_bindings(c["params"][0].get("pat") if isinstance(c["params"][0], dict) and "pat" in c["params"][0] else c["params"][0])
+                    if bs:
+                        out.append((bs[0], bs[1], c["body"]))
+    return out
+
+
+def _treatments(scope, lid):
+    """what is done with a binding: the functions it is handed to, whether it becomes the next thing to walk, ..."""
+    out = set()
+    def is_it(e):
+        e = peel(e)
+        while e.get("k") == "MethodCall" and e.get("m") in ("clone", "to_owned", "into", "borrow") or e.get("k") == "AddrOf":
+            e = peel(e["recv"] if e.get("k") == "MethodCall" else e["e"])
+        return e.get("k") == "Path" and e.get("res") == "local" and e.get("lid") == lid
+    for n in walk(scope):
+        k = n.get("k")
+        if k == "MethodCall":
+            if any(is_it(a) for a in n.get("args", [])):
+                out.add("call:" + n.get("m", "?"))
+        elif k == "Call":
+            if any(is_it(a) for a in n.get("args", [])):
+                d = callee(n) or ""
+                nm = last(d) if d else "?"
+                if nm not in ("Ok", "Some"):
+                    out.add("call:" + nm)
+        elif k == "Assign" and is_it(n.get("r")):
+            out.add("becomes-next")
+        elif k == "Tup" and any(is_it(x) for x in n.get("es", [])):
+            out.add("tuple")
+    return out
+
+
+def rule_G7(ctx):
+    F = ctx.F
+    r = RuleResult("G7", "concatenation operands alike: code that takes a concatenation apart by hand gives its left and right operand the same treatment (either may itself be a concatenation)")
+    n = 0
+    def check(f):
+        res = []
+        for lb, rb, scope in _concat_pairs(f):
+            if lb is None or rb is None:
+                continue  # one side deliberately ignored (`(left, _)`): the accessors of one end
+            tl, tr_ = _treatments(scope, lb["lid"]), _treatments(scope, rb["lid"])
+            res.append((lb, tl, tr_))
+        return res
+    for f in sorted(F.fns.values(), key=lambda f: f["path"]):
+        if f["crate"] not in ("garnish_lang_runtime", "garnish_lang_traits", "garnish_lang_simple_data") or f["kind"] == "Closure":
+            continue
+        for lb, tl, tr_ in check(f):
+            n += 1
+            r.examine((f["path"], loc(lb)), True, {"fn": f["path"], "left": sorted(tl), "right": sorted(tr_)})
+            if tl != tr_:
+                r.finding(f["path"], "operands-treated-differently", loc(lb), "%s takes a concatenation apart and treats its operands differently (left: %s; right: %s): the side that is not walked on as a possible concatenation is read as a single item, so items (and keys) inside a concatenation nested on that side are not found - `a <> (b <> c)`" % (last(f["path"]), sorted(tl) or "-", sorted(tr_) or "-"))
+    r.floor("hand-written destructurings of a concatenation (both operands used)", n, 3)
+    for f in F.fns_in("gfixture::round3::g7::"):
+        if f["kind"] == "Closure" or not f.get("name", "").startswith(("ctl_", "ok_")):
+            continue
+        res = check(f)
+        bad = any(tl != tr_ for _lb, tl, tr_ in res)
+        if f["name"].startswith("ctl_"):
+            r.control(f["name"], bad)
+        else:
+            r.neg_control(f["name"], bool(res) and not bad)
+    return r
